@@ -153,6 +153,15 @@ def append_is_one_chunk(ctx, ap, f):
             for k, t in ctx.R.resolve_call(arg, ap):
                 if k == 'repo' and any(isinstance(x, (ast.Yield, ast.YieldFrom)) for x in own_nodes(t.node)):
                     splitter = t
+            if splitter is not None:
+                # a generator that yields its parameter once, whole and outside any loop, is the one-element display
+                ys = [x for x in own_nodes(splitter.node) if isinstance(x, (ast.Yield, ast.YieldFrom))]
+                loops = [x for x in own_nodes(splitter.node) if isinstance(x, (ast.For, ast.While))]
+                if len(ys) == 1 and isinstance(ys[0], ast.Yield) and not loops and isinstance(ys[0].value, ast.Name) and \
+                        ys[0].value.id in splitter.params and not defs_of(splitter.node, ys[0].value.id) and \
+                        len(arg.args) + len(arg.keywords) == 1 and norm(inline(ap, (arg.args + [k_.value for k_ in arg.keywords])[0])) in params:
+                    ctx.ok('R-FLOW', 'D1', ap, call, construct, inst + f' (through the single-yield generator {splitter.qualname})')
+                    continue
         if isinstance(arg, (ast.GeneratorExp, ast.ListComp)) or splitter is not None or \
                 (isinstance(arg, ast.Name) and arg.id in params):
             ctx.bad('R-FLOW', 'D1', ap, call, construct, inst,
